@@ -86,7 +86,8 @@ SeenFirstIrrelevant ==
   (first # None /\ conv.bcls = "u" /\ Decisive(first) /\ Decisive(Opposite(first)))
      => DOMAIN flows = {StoredFirst(Opposite(first))}
 
-Laws == \A e \in Kinds(conv) : OrientationStable(conv, e) /\ RequesterIsSource(conv, e)
+\* (depends on conv only: evaluated once per conversation, in its initial state)
+Laws == npk = 0 => \A e \in Kinds(conv) : OrientationStable(conv, e) /\ RequesterIsSource(conv, e)
 
 Accounting ==
   LET RECURSIVE S(_)
